@@ -343,6 +343,64 @@ def family_elif():
 
 
 # ---- witnesses of known lowering defects (one program each; fingerprints in known_findings.json) ----------------------
+KR = "class K:\n    def __init__(self, v):\n        self.v = v\n"
+
+
+def family_round2():
+    """shapes a seeding agent reported as fragile in the Python frontend (all hold on the repaired tree)"""
+    P = []
+
+    def add(name, lines, helpers="", bounds=None):
+        P.append(prog(name, "F-round2", lines, helpers=helpers, bounds=bounds))
+    add("slice_expr_bounds", ["l = [1, 2, 3, 4, 5]", "m = l[1:a + 1]", "return len(m) * 10 + m[0]"], bounds={"a": (1, 3)})
+    add("slice_negative_start", ["l = [1, 2, 3, 4, 5]", "m = l[-2:]", "return m[0] + a"])
+    add("slice_both_bounds_computed", ["l = [5, 6, 7, 8, 9]", "m = l[a - 1:a + 1]", "return m[0] * 10 + m[1]"], bounds={"a": (1, 3)})
+    add("swap_names_by_unpacking", ["x = a", "y = b", "x, y = y, x", "return x * 10 + y"])
+    add("unpack_fib_step", ["x = 0", "y = 1", "i = 0", "while i < a:", "    x, y = y, x + y", "    i = i + 1", "return x"], bounds=dict(LOOP_BOUNDS))
+    add("unpack_three_rotating", ["x = a", "y = b", "z = 7", "x, y, z = z, x, y", "return x * 100 + y * 10 + z"])
+    add("nonlocal_two_names", ["p = 1", "q = 2", "def inner():", "    nonlocal p, q", "    p = p + a", "    q = q + a", "inner()", "return p * 10 - q"])
+    add("global_two_names", ["bump(a)", "return GA * 10 - GB"], helpers="GA = 1\nGB = 2\n\ndef bump(v):\n    global GA, GB\n    GA = GA + v\n    GB = GB + v\n")
+    add("self_in_positional_args", ["o = KH(a)", "return o.m(b)"],
+        helpers="def gp(o, k):\n    return o.v - k\n\nclass KH:\n    def __init__(self, v):\n        self.v = v\n    def m(self, d):\n        return gp(self, d)\n")
+    add("self_returned_and_stored", ["o = KI(a)", "p = o.me()", "return p.v + b"],
+        helpers="class KI:\n    def __init__(self, v):\n        self.v = v\n    def me(self):\n        x = self\n        return x\n")
+    add("default_bound_at_definition", ["k = a", "def addd(x, y=k):", "    return x - y", "k = k * 10", "return addd(1)"])
+    add("default_computed_at_definition", ["k = a", "def addd(x, y=k + 1):", "    return x - y", "k = k * 10", "return addd(1) + addd(1, 2)"])
+    add("neg_of_parenthesised_sub", ["return -(a - b)"])
+    add("neg_of_call", ["return -g(a)"], helpers=G)
+    add("and_not_comparison", ["x = 0", "if c and not (a < b):", "    x = 1", "return x"])
+    add("not_of_comparison_assigned", ["t = not (a < b)", "u = not c", "if t:", "    return 1", "if u:", "    return 2", "return 3"])
+    add("inner_local_shadows_outer_assigned", ["x = a", "def g9():", "    x = 100", "    return x", "y = g9()", "return x + y"])
+    add("module_function_local_named_like_global", ["return x0 + gz(a)"], helpers="x0 = 5\n\ndef gz(v):\n    x0 = v * 2\n    return x0\n")
+    add("aug_assign_element", ["l = [a, b]", "l[0] -= 3", "l[1] *= 2", "return l[0] * 10 + l[1]"])
+    add("aug_assign_field", ["o = K(a)", "o.v -= b", "o.v *= 2", "return o.v"], helpers=KR)
+    add("nested_subscript_write", ["m = [[1, 2], [3, 4]]", "m[1][0] = a", "return m[1][0] * 10 + m[0][1]"])
+    add("sub_with_call_operand_right", ["return a - g(b)"], helpers=G)
+    add("sub_with_subscript_operand_left", ["l = [a, b]", "return l[0] - l[1]"])
+    add("keyword_after_default", ["return kd(a, z=b)"], helpers="def kd(x, y=5, z=1):\n    return x * 100 + y * 10 + z\n")
+    add("while_else", ["i = 0", "s = 0", "while i < a:", "    i = i + 1", "    if i == b:", "        break", "else:", "    s = 9", "return s * 10 + i"], bounds=dict(LOOP_BOUNDS))
+    add("floor_div_mod_negative", ["return (0 - a) // 3 * 10 + (0 - a) % 3"], bounds={"a": (0, 7)})
+    add("negative_index", ["l = [a, b, 7]", "return l[-1] + l[-3]"])
+    return P
+
+
+def witnesses_round2():
+    W = []
+
+    def w(name, lines, known, helpers=""):
+        W.append(prog(name, "witness", lines, helpers=helpers, known=known))
+    w("w_unpack_into_elements", ["l = [a, b]", "l[0], l[1] = l[1], l[0]", "return l[0] * 10 + l[1]"], "unpack-into-elements")
+    w("w_unpack_into_fields", ["o = K(a)", "p = K(b)", "o.v, p.v = p.v, o.v", "return o.v * 10 + p.v"], "unpack-into-fields", helpers=KR)
+    w("w_class_attr_computed", ["return KC.b + a"], "class-attribute-value", helpers="class KC:\n    a0 = 2\n    b = a0 * 3\n")
+    w("w_class_attr_negative_literal", ["return KD.neg + a"], "class-attribute-value", helpers="class KD:\n    neg = -1\n")
+    w("w_class_attr_list", ["return KE.items[1] + a"], "class-attribute-value", helpers="class KE:\n    items = [1, 2]\n")
+    w("w_self_in_nested_function", ["o = KF(a)", "return o.m(b)"], "self-not-unified",
+      helpers="class KF:\n    def __init__(self, v):\n        self.v = v\n    def m(self, d):\n        def h(z):\n            return self.v - z\n        return h(d)\n")
+    w("w_self_as_keyword_argument", ["o = KG(a)", "return o.m(b)"], "self-not-unified",
+      helpers="def gk(k, o):\n    return o.v - k\n\nclass KG:\n    def __init__(self, v):\n        self.v = v\n    def m(self, d):\n        return gk(d, o=self)\n")
+    return W
+
+
 def witnesses():
     W = []
     W.append(prog("w_continue_stale_condition", "witness",
@@ -350,17 +408,17 @@ def witnesses():
                   bounds={"a": (0, 3)}, known="continue-in-while-stale-condition"))
     W.append(prog("w_and_short_circuit", "witness", ["x = a and g(b)", "return x"], helpers=G, known="boolean-operator-eager-operands"))
     W.append(prog("w_chained_comparison", "witness", ["x = a < b < 2", "return x"], known="chained-comparison"))
-    return W
+    return W + witnesses_round2()
 
 
 def quick_family(seed=0):
-    progs = family_expr() + family_fun() + family_cls() + family_data() + family_elif()
+    progs = family_expr() + family_fun() + family_cls() + family_data() + family_elif() + family_round2()
     ctl = family_ctl(max_n=3, depth=2, seed=seed) + family_nested_loops() + family_two_jumps()
     return progs, ctl
 
 
 def thorough_family(seed=0):
-    progs = family_expr() + family_fun() + family_cls() + family_data() + family_elif()
+    progs = family_expr() + family_fun() + family_cls() + family_data() + family_elif() + family_round2()
     ctl = family_ctl(max_n=4, depth=2, seed=seed) + family_nested_loops() + family_two_jumps()
     return progs, ctl
 
